@@ -650,7 +650,8 @@ mod assignment {
     pub fn declare_locally(field: &Field, value: &Tokens<Java>) -> Tokens<Java> {
         match field {
             Field::Payload { .. } => quote!($(&*import::BB) payload = $value;),
-            Field::ArrayElem { .. } => quote!(),
+            // Arrays and structs are decoded into a local variable of the field's name already.
+            Field::ArrayElem { .. } | Field::StructRef { .. } => quote!(),
             Field::Integral { ty, fixed_val: Some(fixed_val), .. } => {
                 enforce_integral_fixed(*ty, value, *fixed_val)
             }
